@@ -217,6 +217,9 @@ def _object(draw, g: Gate, names: list[str], depth: int, self_name: str | None, 
         node = _node(draw, g, names, depth, self_name, later)
         declared_cls = {_cls(x) for x in names}
         synth_clash = _cls(pn) in declared_cls or (self_name is not None and _cls(self_name) + _cls(pn) in declared_cls)  # Pet.owner vs schema pet_owner
+        # User.userId / Tag.tags: the synthesised name <Schema><Prop> collapses to the bare <Prop> (UserId, Tags), which any same-named
+        # inline property of another schema is then typed with (thorough-tier instances of C03-F04)
+        synth_clash = synth_clash or (self_name is not None and _cls(pn).lower().startswith(_cls(self_name).lower()))
         if _promotable(node) and (any(_py(pn) == _py(q) for q in props) or synth_clash):
             # the synthesised type name would collide with a sibling's / a declared schema's: known findings C03-F03/F04
             feat = "colliding_props_promotable" if any(_py(pn) == _py(q) for q in props) else "prop_class_equals_schema_name"
